@@ -196,6 +196,32 @@ theorem encode_invariant (e : Encoder) (media : List Bytes) (f : Nat)
         rw [← this]
         exact nextCov_masksOk e media f he c h3
 
+/-- `bad_free_unchanged`: the model of a batch in which pion/rtp fails to marshal the packets at the positions `bad`
+(`Encoder.encodeFecBad`: the repair packets covering one of them are not produced) is the model of `EncodeFec` when no
+packet fails — every theorem above is about that function. -/
+theorem bad_free_unchanged (e : Encoder) (media : List Bytes) (f : Nat) :
+    e.encodeFecBad media f [] = e.encodeFec media f := by
+  have hloop : ∀ (c : Coverage) (pt ssrc b : Nat) (is : List Nat) (sn : Nat),
+      encodeLoopBad c pt ssrc b [] is sn = encodeLoop c pt ssrc b is sn := by
+    intro c pt ssrc b is
+    induction is with
+    | nil => intro sn; simp [encodeLoopBad, encodeLoop]
+    | cons i is ih =>
+      intro sn
+      have hcb : c.coversBad [] i = false := by simp [Coverage.coversBad]
+      simp only [encodeLoopBad, encodeLoop, hcb, ih]
+      simp
+  unfold Encoder.encodeFecBad Encoder.encodeFec
+  simp only [hloop]
+
+/-- the interceptor's `Write` likewise. -/
+theorem write_bad_free_unchanged (s : Icpt) (p : Bytes) : s.writeBad p [] = s.write p := by
+  unfold Icpt.writeBad Icpt.write
+  simp only [bad_free_unchanged]
+
+example : (Encoder.new 96 7).encodeFecBad [[128, 96, 0, 1, 0, 0, 0, 10, 0, 0, 0, 7, 1]] 1 []
+    = (Encoder.new 96 7).encodeFec [[128, 96, 0, 1, 0, 0, 0, 10, 0, 0, 0, 7, 1]] 1 := bad_free_unchanged _ _ _
+
 /-- non-vacuity of `recover_exact`/`encode_protects`: a concrete accepted batch (CSRC-less packets of
 different lengths, sequence numbers across the wrap) satisfies `ValidMedia`. -/
 example : ValidMedia [[128, 96, 255, 255, 0, 0, 0, 10, 0, 0, 0, 7, 1],
